@@ -131,4 +131,26 @@ Record InvC (s : cfg) (tr : list event) : Prop := {
 
 Definition Inv (s : cfg) (tr : list event) : Prop := InvA s tr /\ InvB s tr /\ InvC s tr.
 
+(* ---- vocabulary of the property statements ---- *)
+
+(* e is the end of call pc of task t *)
+Definition call_end (e : event) (t : tid) (pc : nat) : Prop :=
+  e = CallReturn t pc \/ exists x m, e = CallPanic t pc x m.
+
+(* the dependencies a call gets to: all of them for Deps/CtxDeps; for the serial forms those whose
+   predecessors in the list all finished successfully (the only exception the property allows) *)
+Definition reached_by (tr : list event) (c : call) (k : key) : Prop :=
+  match c_style c with
+  | Par => In k (c_deps c)
+  | Ser => exists i, nth_error (c_deps c) i = Some k /\
+                     forall i' k', i' < i -> nth_error (c_deps c) i' = Some k' -> In (BodyEnd k' RNil) tr
+  end.
+
+(* k' is k or something k's body waited on, transitively *)
+Inductive below (tr : list event) : key -> key -> Prop :=
+| below_refl k : below tr k k
+| below_step k pc c k' k'' :
+    In (CallEnter (TBody k) pc) tr -> nth_error (calls_of p (TBody k)) pc = Some c ->
+    reached_by tr c k' -> below tr k' k'' -> below tr k k''.
+
 End Defs.
